@@ -2,6 +2,7 @@ package main
 
 import (
 	"fmt"
+	"sort"
 	"strconv"
 	"time"
 )
@@ -164,6 +165,7 @@ func vC18GenTokens(e *vEnv, r *vRand, nCases, perCase int) []vCase {
 
 type vC18Shadow struct {
 	conns   []int        // all connection numbers used
+	busy    map[int]bool // handler blocked in the media server
 	open    map[int]bool // believed open
 	authed  map[int]int  // conn -> session (believed)
 	nSess   int
@@ -182,7 +184,7 @@ func vC18GenHistories(e *vEnv, r *vRand, nCases, maxOps int) []vCase {
 		}
 		ops := []string{"cfg " + cfg}
 		now := vC18Epoch
-		sh := &vC18Shadow{open: map[int]bool{}, authed: map[int]int{}, objKind: map[int]string{}}
+		sh := &vC18Shadow{open: map[int]bool{}, busy: map[int]bool{}, authed: map[int]int{}, objKind: map[int]string{}}
 		nextConn := 0
 		maxSess := 1 + rr.intn(3)
 		connect := func() int {
@@ -197,10 +199,10 @@ func vC18GenHistories(e *vEnv, r *vRand, nCases, maxOps int) []vCase {
 			if len(sh.conns) == 0 || rr.chance(1, 30) {
 				return rr.intn(4)
 			}
-			// prefer open ones
-			for k := 0; k < 4; k++ {
+			// prefer open ones whose handler is not blocked
+			for k := 0; k < 6; k++ {
 				c := sh.conns[rr.intn(len(sh.conns))]
-				if sh.open[c] {
+				if sh.open[c] && !sh.busy[c] {
 					return c
 				}
 			}
@@ -209,7 +211,7 @@ func vC18GenHistories(e *vEnv, r *vRand, nCases, maxOps int) []vCase {
 		authedConn := func() int {
 			var cs []int
 			for _, c := range sh.conns {
-				if _, ok := sh.authed[c]; ok && sh.open[c] {
+				if _, ok := sh.authed[c]; ok && sh.open[c] && !sh.busy[c] {
 					cs = append(cs, c)
 				}
 			}
@@ -273,10 +275,18 @@ func vC18GenHistories(e *vEnv, r *vRand, nCases, maxOps int) []vCase {
 					kind = "createsub"
 				}
 				oc := outcome()
+				if rr.chance(1, 7) {
+					oc = "late"
+				}
 				ops = append(ops, fmt.Sprintf("cmd %d %s %s %s", c, kind, streams[rr.intn(2)], oc))
-				if _, ok := sh.authed[c]; ok && sh.open[c] && oc == "ok" {
-					sh.nObj++
-					sh.objKind[sh.nObj] = kind
+				if _, ok := sh.authed[c]; ok && sh.open[c] && !sh.busy[c] {
+					switch oc {
+					case "ok":
+						sh.nObj++
+						sh.objKind[sh.nObj] = kind
+					case "late":
+						sh.busy[c] = true
+					}
 				}
 			case k < 41:
 				c := authedConn()
@@ -352,8 +362,24 @@ func vC18GenHistories(e *vEnv, r *vRand, nCases, maxOps int) []vCase {
 				ops = append(ops, "expire")
 			case k < 91:
 				ops = append(ops, "mcudown")
-			case k < 94:
+			case k < 92:
 				ops = append(ops, fmt.Sprintf("mcuclose %d", anyObj()))
+			case k < 94:
+				// the media server answers a pending creation (sometimes there is none)
+				c := anyConn()
+				for b := range sh.busy {
+					if sh.busy[b] && (rr.chance(1, 2) || c == b) {
+						c = b
+					}
+				}
+				oc := rr.pick([]string{"ok", "ok", "ok", "fail", "timeout"})
+				ops = append(ops, fmt.Sprintf("release %d %s", c, oc))
+				if sh.busy[c] {
+					delete(sh.busy, c)
+					if oc == "ok" {
+						sh.nObj++
+					}
+				}
 			case k < 97:
 				ops = append(ops, fmt.Sprintf("invalid %d %s", anyConn(), vC18InvalidKinds[rr.intn(len(vC18InvalidKinds))]))
 			default:
@@ -373,6 +399,15 @@ func vC18GenHistories(e *vEnv, r *vRand, nCases, maxOps int) []vCase {
 			for _, c := range sh.conns {
 				ops = append(ops, fmt.Sprintf("bye %d", c))
 			}
+		}
+		// late answers of the media server arrive after everything else
+		var bs []int
+		for b := range sh.busy {
+			bs = append(bs, b)
+		}
+		sort.Ints(bs)
+		for _, b := range bs {
+			ops = append(ops, fmt.Sprintf("release %d %s", b, rr.pick([]string{"ok", "ok", "fail"})))
 		}
 		cases = append(cases, vCase{Ops: ops, Tags: []string{"history"}})
 	}
@@ -427,10 +462,60 @@ func vC18GenPreHello(e *vEnv, r *vRand, nCases int) []vCase {
 	return cases
 }
 
+// ---- (4) the media server answers a creation after the session has ended / changed hands
+
+func vC18GenLate(e *vEnv, r *vRand, nCases int) []vCase {
+	var cases []vCase
+	for i := 0; i < nCases; i++ {
+		rr := r.fork()
+		cfg := vC18Cfgs[0]
+		ops := []string{"cfg " + cfg, "connect 0", vC18HelloLine(0, vC18ValidTok(rr, cfg), vC18Epoch)}
+		if rr.chance(1, 2) {
+			ops = append(ops, "cmd 0 createpub video ok")
+		}
+		kind := rr.pick([]string{"createpub", "createsub"})
+		ops = append(ops, fmt.Sprintf("cmd 0 %s %s late", kind, rr.pick([]string{"video", "screen"})))
+		if rr.chance(1, 4) {
+			ops = append(ops, "cmd 0 createpub video ok", "bye 0") // queued behind the call: not modelled, skipped
+		}
+		// somebody else takes the session over (or not), then the session ends (or not)
+		took := rr.chance(3, 4)
+		if took {
+			ops = append(ops, "connect 1", "hello 1 resume exact 1 0")
+			if rr.chance(1, 3) {
+				ops = append(ops, fmt.Sprintf("cmd 1 %s video %s", rr.pick([]string{"createpub", "createsub"}), rr.pick([]string{"ok", "late"})))
+			}
+		}
+		switch rr.intn(5) {
+		case 0:
+			if took {
+				ops = append(ops, "bye 1")
+			}
+		case 1:
+			if took {
+				ops = append(ops, "close 1", "sleep 60001", "expire")
+			}
+		case 2:
+			ops = append(ops, "mcudown")
+		case 3:
+			ops = append(ops, "sleep 30000")
+		}
+		ops = append(ops, fmt.Sprintf("release 0 %s", rr.pick([]string{"ok", "ok", "ok", "fail", "timeout"})))
+		if rr.chance(1, 2) {
+			ops = append(ops, "release 1 ok")
+		}
+		// afterwards nothing may be left behind
+		ops = append(ops, "sleep 200000", "expire", "cmd 0 createpub video ok", "release 1 ok")
+		cases = append(cases, vCase{Ops: ops, Tags: []string{"late"}})
+	}
+	return cases
+}
+
 func vC18Gen(e *vEnv, r *vRand) []vCase {
 	var cases []vCase
-	cases = append(cases, vC18GenTokens(e, r.fork(), e.scale(40, 600), 10)...)
-	cases = append(cases, vC18GenHistories(e, r.fork(), e.scale(150, 3000), e.scale(40, 120))...)
-	cases = append(cases, vC18GenPreHello(e, r.fork(), e.scale(20, 200))...)
+	cases = append(cases, vC18GenTokens(e, r.fork(), e.scale(100, 800), 10)...)
+	cases = append(cases, vC18GenHistories(e, r.fork(), e.scale(300, 3000), e.scale(40, 120))...)
+	cases = append(cases, vC18GenPreHello(e, r.fork(), e.scale(30, 200))...)
+	cases = append(cases, vC18GenLate(e, r.fork(), e.scale(60, 600))...)
 	return cases
 }
